@@ -73,6 +73,38 @@ def classify(mm, event):
     return tag
 
 
+def structure_stats(lines, cov):
+    """what the dumps of a trace show about structural change (coverage only, never a verdict)"""
+    prev = None
+    sc = cov.setdefault("structure", {"dumps": 0, "max_borders": 0, "max_interiors": 0, "max_layer_roots": 0, "border_count_drops": 0,
+                                      "interior_count_drops": 0, "interior_count_rises": 0, "layer_count_drops": 0, "root_kind_changes": 0,
+                                      "empty_root_seen": 0})
+    for l in lines:
+        if '"dump"' not in l:
+            continue
+        try:
+            d = json.loads(l)["dump"]["nodes"]
+        except Exception:
+            continue
+        nb = sum(1 for n in d if n["t"] == "B")
+        ni = len(d) - nb
+        nl = sum(1 for n in d if n["parent"] > 0 and d[n["parent"] - 1]["t"] == "B")
+        cur = (nb, ni, nl, d[0]["t"] if d else "?")
+        sc["dumps"] += 1
+        sc["max_borders"] = max(sc["max_borders"], nb)
+        sc["max_interiors"] = max(sc["max_interiors"], ni)
+        sc["max_layer_roots"] = max(sc["max_layer_roots"], nl)
+        if d and d[0]["t"] == "B" and not d[0]["perm"]:
+            sc["empty_root_seen"] += 1
+        if prev:
+            sc["border_count_drops"] += cur[0] < prev[0]
+            sc["interior_count_drops"] += cur[1] < prev[1]
+            sc["interior_count_rises"] += cur[1] > prev[1]
+            sc["layer_count_drops"] += cur[2] < prev[2]
+            sc["root_kind_changes"] += cur[3] != prev[3]
+        prev = cur
+
+
 def run_profiles(chk, prop, profiles, on, strict_too=True, timeout=900, tag=""):
     """profiles: list of argument lists for treedrv.  Judges with ON = on (+ "S" collected separately as divergences)."""
     exe = treedrv()
@@ -101,6 +133,7 @@ def run_profiles(chk, prop, profiles, on, strict_too=True, timeout=900, tag=""):
             i, args, tr, lines = job
             chk.add_tlc(res, "trace %s (%d events)" % (" ".join(args), len(lines)))
             chk.cov["events"] = chk.cov.get("events", 0) + len(lines)
+            structure_stats(lines, chk.cov)
             for l in lines:
                 try:
                     op = json.loads(l).get("op")
